@@ -37,8 +37,10 @@ PROP = {
         "aggregate queries: select list and HAVING are expressions over the aggregate row (group keys, then aggregates; since repo "
         "48289eb the engine plans them that way); a column that is neither grouped nor aggregated cannot be written in the case "
         "syntax; SUM results are only compared / added to, AVG results only shown (they are doubles in the engine); "
-        "sub-queries are outside the modelled grammar (they answer an error since repo 1374df0); CASE (searched and simple) is "
-        "modelled, but not below a unary minus",
+        "sub-queries in expressions are outside the modelled grammar (they answer an error since repo 1374df0); derived tables in "
+        "FROM are modelled in their select-project form (SELECT items FROM f [WHERE w]) AS r, every output column typed; a statement "
+        "over a derived table with a WHERE of its own is generated without clauses that can fail (the engine merges the two filters); "
+        "CASE (searched and simple) is modelled, but not below a unary minus",
         "SUM/AVG return DOUBLE in the engine: compared as exact integers / correctly rounded quotients, for |sum| < 2^53",
         "integer literals and stored values are exactly representable as f64 (the lexer reads numbers as f64)",
         "what a failed INSERT/UPDATE/DELETE leaves behind is C03: statements after a failed DML statement of a case are not compared",
